@@ -726,7 +726,7 @@ static void run_cxxref(Ctx &c) {
 
 // ------------------------------------------------------------------ metatypes of the library: geninfo, buffer
 static void run_meta(Ctx &c) {
-  struct M { metatype *mt; int kind; bool alive; size_t len; };
+  struct M { metatype *mt; int kind; bool alive; size_t len; CBuf *buf; };  // buf: text buffer behind a buffer metatype (shared one or its own)
   std::vector<M> objs;
   CObj<array> text;   // raw text buffer shared with the buffer metatypes
   static const char words[] = "one\0two\0three";
@@ -742,7 +742,7 @@ static void run_meta(Ctx &c) {
       c.logf("    %s metatype #%zu: %s", m.kind ? "buffer" : "geninfo", i, m.alive ? "alive" : "released");
       if (m.alive) {
         VP_CHECK(c, !poisoned(m.mt), "released-early", "after %s: metatype #%zu is still referenced but its memory was freed", op, i);
-        if (m.kind) users++;
+        if (m.kind && m.buf == tb) users++;
       } else {
         VP_CHECK(c, poisoned(m.mt), "not-released", "after %s: the only reference to metatype #%zu was dropped but its memory is still allocated", op, i);
       }
@@ -753,11 +753,56 @@ static void run_meta(Ctx &c) {
       bool shared = flags_of(tb) & BufferShared;
       VP_CHECK(c, shared == (users > 1), "count-mismatch", "after %s: the text buffer is referenced %ld time(s) but reports %s", op, users, shared ? "shared" : "not shared");
     }
+    // text buffers created by mpt_meta_new for long values: referenced by the metatypes on them only
+    for (size_t i = 0; i < objs.size(); i++) {
+      CBuf *b = objs[i].buf;
+      if (!b || b == tb) continue;
+      bool first = true;
+      for (size_t j = 0; j < i; j++) if (objs[j].buf == b) first = false;
+      if (!first) continue;
+      long n = 0;
+      for (auto &m : objs) if (m.buf == b && m.alive) n++;
+      c.logf("    text buffer of metatype #%zu: %ld buffer metatype(s)", i, n);
+      VP_CHECK(c, poisoned(b) == (n == 0), n ? "released-early" : "not-released", "after %s: the text buffer mpt_meta_new made for metatype #%zu is referenced by %ld metatype(s), its memory is %s", op, i, n, poisoned(b) ? "freed" : "allocated");
+      if (n) {
+        bool shared = flags_of(b) & BufferShared;
+        VP_CHECK(c, shared == (n > 1), "count-mismatch", "after %s: the text buffer mpt_meta_new made for metatype #%zu is referenced by %ld metatype(s) but reports %s", op, i, n, shared ? "shared" : "not shared");
+        uintptr_t probe = b->vptr->addref(b);  // exact count: addref returns the raised counter, the probe is taken back
+        b->vptr->unref(b);
+        VP_CHECK(c, probe == (uintptr_t)n + 1, probe > (uintptr_t)n + 1 ? "not-released" : "released-early", "after %s: the text buffer of metatype #%zu should have %ld reference(s), an additional addref returned %lu", op, i, n, (unsigned long)probe);
+      }
+    }
   };
   auto live_objs = [&]() { std::vector<int> v; for (size_t i = 0; i < objs.size(); i++) if (objs[i].alive) v.push_back((int)i); return v; };
   check("start");
   while (c.more()) {
-    switch (c.weighted({8, 5, 10, 8, 6, 3})) {
+    switch (c.weighted({8, 5, 10, 8, 6, 3, 9})) {
+      case 6: {  // mpt_meta_new for a text value: geninfo for short texts, a buffer metatype on a private text buffer for long ones
+        if (objs.size() >= 8) break;
+        size_t len = c.flip() ? c.near({0, 1, 100, 249}, 249) : 250 + c.near({0, 4, 5, 6, 350}, 350);
+        std::string s;
+        for (size_t i = 0; i < len; i++) s.push_back('a' + (char)((i * 7 + len) % 26));
+        const char *txt = s.c_str();
+        CObj<value> val;
+        val->_addr = &txt;
+        val->_type = 's';
+        metatype *mt = mpt_meta_new(val);
+        c.logf("mpt_meta_new(text of %zu characters) returns %s", len, mt ? "a metatype" : "NULL");
+        if (!mt) { c.label("meta:new-refused"); check("meta new"); break; }
+        CBuf *b = 0;
+        int r = mt->convert(TypeBufferPtr, &b);
+        if (r < 0) b = 0;
+        objs.push_back(M{mt, b ? 1 : 0, true, len, b});
+        c.logf("metatype #%zu = %s", objs.size() - 1, b ? "buffer metatype on its own text buffer" : "geninfo");
+        c.label(b ? "meta:new-long" : "meta:new-short");
+        if (b) {
+          nontrivial = true;
+          VP_CHECK(c, b != tb, "harness", "mpt_meta_new returned the harness text buffer");
+          VP_CHECK(c, !(flags_of(b) & BufferShared), "count-mismatch", "the text buffer of a fresh mpt_meta_new(%zu characters) metatype reports shared: a reference nobody owns is left on it", len);
+        }
+        check("meta new");
+        break;
+      }
       case 0: {  // geninfo metatype with text
         if (objs.size() >= 8) break;
         size_t len = c.near({0, 1, 30, 200}, 240);
@@ -766,7 +811,7 @@ static void run_meta(Ctx &c) {
         metatype *mt = mpt_meta_geninfo(len);
         if (!mt) { c.label("meta:geninfo-refused"); break; }
         int r = _mpt_geninfo_set(mt + 1, s.data(), (int)len);
-        objs.push_back(M{mt, 0, true, len});
+        objs.push_back(M{mt, 0, true, len, 0});
         c.logf("metatype #%zu = geninfo for %zu characters (set returns %d)", objs.size() - 1, len, r);
         check("geninfo create");
         break;
@@ -775,7 +820,7 @@ static void run_meta(Ctx &c) {
         if (objs.size() >= 8 || !text_held) break;
         metatype *mt = mpt_meta_buffer(text);
         VP_CHECK(c, mt, "harness", "mpt_meta_buffer failed");
-        objs.push_back(M{mt, 1, true, 0});
+        objs.push_back(M{mt, 1, true, 0, tb});
         c.logf("metatype #%zu = buffer metatype on the text buffer", objs.size() - 1);
         c.label("meta:buffer");
         check("buffer metatype create");
@@ -791,7 +836,7 @@ static void run_meta(Ctx &c) {
         VP_CHECK(c, n != objs[i].mt, "clone-result", "clone returned the object itself although addref is not supported");
         // a clone of a buffer metatype made by the C implementation is a buffer metatype on the same buffer
         int kind = objs[i].kind;
-        objs.push_back(M{n, kind, true, objs[i].len});
+        objs.push_back(M{n, kind, true, objs[i].len, objs[i].buf});
         nontrivial = true;
         c.label(kind ? "meta:clone-buffer" : "meta:clone-geninfo");
         check("clone");
@@ -822,7 +867,7 @@ static void run_meta(Ctx &c) {
         check("addref");
         break;
       }
-      default: {  // the harness drops its own handle on the text buffer
+      case 5: default: {  // the harness drops its own handle on the text buffer
         if (!text_held) break;
         c.logf("harness releases its handle on the text buffer");
         mpt_array_clone(text, 0);
@@ -840,11 +885,16 @@ static void run_meta(Ctx &c) {
 }
 
 // ------------------------------------------------------------------ deferrable reply context
-struct SendLog { int calls; };
-static int reply_send(void *ptr, const reply_data *, const message *) { ((SendLog *)ptr)->calls++; return 0; }
+struct SendLog { int calls; bool fail_next; int failed; };
+static int reply_send(void *ptr, const reply_data *, const message *) {
+  SendLog *l = (SendLog *)ptr;
+  l->calls++;
+  if (l->fail_next) { l->fail_next = false; l->failed++; return BadOperation; }  // the transport could not deliver
+  return 0;
+}
 
 static void run_reply(Ctx &c) {
-  SendLog log = {0};
+  SendLog log = {0, false, 0};
   size_t idlen = 4;  // ids shorter than 4 bytes run into C12's findings in mpt_message_buf2id
   metatype *mt = mpt_reply_deferrable(idlen, reply_send, &log);
   VP_CHECK(c, mt, "harness", "mpt_reply_deferrable failed");
@@ -857,6 +907,7 @@ static void run_reply(Ctx &c) {
   long mtrefs = 1;
   std::vector<reply_context_detached *> defs;
   bool armed = false, nontrivial = false;
+  bool send_active = true;  // the context forgets its transport at the first metatype unref that is not the last reference
   unsigned replies = 0;
   static const uint8_t id[4] = {0, 0, 1, 5};
   auto check = [&](const char *op) {
@@ -866,12 +917,47 @@ static void run_reply(Ctx &c) {
     for (auto *d : defs) VP_CHECK(c, !poisoned(d), "released-early", "after %s: an outstanding deferred context was freed", op);
   };
   while (c.more()) {
-    switch (c.weighted({5, 6, 10, 10, 8, 2})) {
+    switch (c.weighted({5, 6, 10, 10, 8, 2, 9})) {
+      case 6: {  // answer through a deferred context with a real message; the transport may fail, then the context stays pending
+        if (defs.empty()) break;
+        size_t k = c.pick(defs.size());
+        bool fail = c.chance(120);
+        reply_context_detached *d = defs[k];
+        static const char text[] = "answer";
+        CObj<message> msg;
+        msg->base = text;
+        msg->used = sizeof text;
+        log.fail_next = fail;
+        int before = log.calls;
+        int r = d->reply(msg);
+        bool sent = log.calls != before;
+        log.fail_next = false;
+        c.logf("deferred context %zu ->reply(message)%s returns %d (transport %s)", k, fail ? " with a failing transport" : "", r, sent ? "called" : "not called");
+        VP_CHECK(c, sent == send_active, "harness", "transport %s although the context %s it", sent ? "called" : "not called", send_active ? "still has" : "has forgotten");
+        if (r < 0) {
+          VP_CHECK(c, fail && sent, "harness", "deferred reply failed with %d although the transport accepted the message", r);
+          // kept for a new attempt: still counted, must stay usable
+          VP_CHECK(c, !poisoned(d), "released-early", "a deferred context whose reply could not be sent was freed");
+          nontrivial = true;
+          c.label("reply:deferred-send-failed");
+        } else {
+          VP_CHECK(c, !(fail && sent), "harness", "deferred reply reports success although the transport failed");
+          replies++;
+          defs.erase(defs.begin() + k);
+          VP_CHECK(c, poisoned(d), "not-released", "a used deferred context is still allocated");
+          c.label("reply:deferred-reply-message");
+        }
+        check("deferred reply with message");
+        break;
+      }
       case 0: {
         if (!mtrefs) break;
         uintptr_t r = mt->addref();
         c.logf("metatype addref returns %lu", (unsigned long)r);
         VP_CHECK(c, r != 0, "addref-refused", "addref on a live reply context reported failure");
+        // the context counter is shared by metatype references and pending deferred contexts (mpt_refcount_raise returns the raised value)
+        VP_CHECK(c, r == (uintptr_t)(mtrefs + (long)defs.size()) + 1, r > (uintptr_t)(mtrefs + (long)defs.size()) + 1 ? "not-released" : "released-early",
+                 "addref returned %lu with %ld metatype reference(s) and %zu pending deferred context(s) held before", (unsigned long)r, mtrefs, defs.size());
         mtrefs++;
         VP_CHECK(c, mt->clone() == 0, "harness", "a reply context is not clonable, clone() returned an object");
         c.label("reply:addref");
@@ -884,6 +970,7 @@ static void run_reply(Ctx &c) {
         bool sends = mtrefs == 1 && defs.empty() && armed;
         mt->unref();
         mtrefs--;
+        send_active = false;
         if (sends) replies++;  // the last owner answers a pending request with an empty reply
         if (!mtrefs) { armed = false; if (!defs.empty()) { nontrivial = true; c.label("reply:deferred-outlives-owner"); } }
         check("unref");
@@ -921,7 +1008,7 @@ static void run_reply(Ctx &c) {
         check("deferred reply");
         break;
       }
-      default: {
+      case 5: default: {
         if (!mtrefs || !armed) break;
         int r = rc->reply(0);
         c.logf("context ->reply(NULL) returns %d", r);
@@ -932,9 +1019,9 @@ static void run_reply(Ctx &c) {
       }
     }
   }
-  while (!defs.empty()) { defs.back()->reply(0); replies++; defs.pop_back(); }
+  while (!defs.empty()) { defs.back()->reply(0); replies++; defs.pop_back(); check("cancel of a pending deferred context"); }
   bool sends = mtrefs >= 1 && armed;
-  while (mtrefs > 0) { mt->unref(); mtrefs--; }
+  while (mtrefs > 0) { mt->unref(); mtrefs--; if (mtrefs) check("unref"); }
   if (sends) replies++;
   check("final release");
   if (nontrivial) c.nontrivial();
